@@ -15,6 +15,9 @@ import sys
 import tempfile
 from concurrent.futures import ThreadPoolExecutor
 
+sys.path.insert(0, "/verif")
+from gv.patching import apply_patch  # noqa: E402
+
 PY = "/venv/bin/python"
 PROPS = [f"C{i:02d}" for i in range(1, 21)]
 
@@ -27,9 +30,10 @@ def run(seed, all_props):
         dst = os.path.join(tmp, "repo")
         os.makedirs(dst)
         subprocess.run(f"cd /repo && git ls-files -z gaftools docs | xargs -0 cp --parents -t {dst}", shell=True, check=True)
-        p = subprocess.run(f"cd {dst} && git init -q . && git apply {d}/patch.diff", shell=True, capture_output=True, text=True)
-        if p.returncode != 0:
-            return seed, {"error": "patch does not apply: " + p.stderr[-300:]}
+        subprocess.run(["git", "init", "-q", "."], cwd=dst, capture_output=True)
+        ok, msg = apply_patch(dst, f"{d}/patch.diff")
+        if not ok:
+            return seed, {"error": "patch does not apply: " + msg}
         res = {}
         props = PROPS if all_props else [prop]
         for pr in props:
